@@ -51,20 +51,25 @@ RULE = ("cases = family(shell x rotation family in {generic, near, D6h, Oh}), lo
         "which every block is closed and the orbit or the group is non-trivial (key = structure, site, orbital, mode, spinor); "
         "cases whose orbital set is not closed under some operation are counted trivial (only 'no exception' is required)")
 ASSUMPTIONS = [
-    "rotations: the 48 of O_h, the 24 of D_6h, 12 generic ones (+identity) and the 'near' family (6 quick / 11 thorough: pairs of "
-    "distinct rotations 3e-3..6e-3 rad apart); 'all rotations in O(3)' is represented by these (the matrices are polynomial in the "
+    "rotations: the 48 of O_h, the 24 of D_6h, 12 generic ones (+identity) and the 'near' family (6 quick / 11 thorough: every "
+    "member has a distinct neighbour of the same determinant 3e-3..6e-3 rad away, none closer); 'all rotations in O(3)' is "
+    "represented by these (the matrices are polynomial in the "
     "entries of R, the generic elements test the polynomial, the groups test every crystallographic value, the near pairs test that "
     "the rotator's cache does not identify resolved rotations)",
     "rotations closer than the cache tolerance of OrbitalRotator (element-wise 1e-4, i.e. angles below ~1e-4 rad) are not in the "
-    "alphabet (the cache identifies them by design); the closest distinct pair in the alphabets is 3e-3 rad apart, and the harness "
-    "verifies that every rotation and every product sent to a rotator is either equal (<1e-9) to, or element-wise > 3e-4 away from, "
-    "every other one (so no verdict depends on which side of the tolerance a rotation falls); pairs between 1e-4 and 3e-3 rad are "
-    "not enumerated",
-    "evaluation orders through one rotator: the listed order and (generic/near families) the reverse order through a fresh rotator; "
-    "other permutations are not enumerated",
+    "alphabet (the cache identifies them by design, e.g. two frames tilted about an axis lying almost in a mirror plane give rotations "
+    "5e-5 apart that the library merges); the closest distinct pairs are 3e-3 rad apart in the families and element-wise >= 7e-4 in "
+    "the Dwann 'tilt' sets, and the harness verifies (keys harness:*) that every rotation and every product sent to a rotator is "
+    "either equal (<1e-9) to, or element-wise > 3e-4 away from, every other one, so no verdict depends on which side of the tolerance "
+    "a rotation falls; pairs between 1e-4 and ~1e-3 rad are not enumerated",
+    "evaluation orders through one rotator: the listed order and (generic/near families) the reverse order through a second, fresh "
+    "rotator, then the products of all ordered pairs in lexicographic order; other permutations are not enumerated. Dwann evaluates "
+    "its rotations in its own order (sites outer, operations inner)",
     "Dwann local frames: global frame, one custom frame shared by all sites (rotate_basis=False with zaxis/xaxis: axis permutations, "
     "a 45-degree frame, a cube diagonal, one generic direction), custom frame on single-site orbits, site-co-rotated frames, and "
-    "explicit basis_list tilted by 3e-3 rad x (site index + 1) about one generic axis; other frames are not enumerated",
+    "explicit basis_list tilted by 3e-3 rad x (site index + 1) about one generic axis (complete shells p, d, sp3 only, which stay "
+    "closed in any frame); other frames are not enumerated. The frames are read from Projection.basis_list: how zaxis/xaxis are "
+    "turned into a frame is not part of this property",
     "orbital sets not closed under an operation have no representation matrix: only absence of an exception is required",
     "composition for all ordered pairs inside each family (products stay in the family for O_h and D_6h); mixed O_h x D_6h "
     "products are covered by the per-matrix reference only",
